@@ -63,6 +63,7 @@ type World struct {
 	Pkgs       map[string]*Package // by import path
 	Mods       []*Module
 	ModByPath  map[string]*Module // import path -> module
+	Panicky    map[string]bool    // "Module.CoqName" of the translated functions that have a _panics companion
 }
 
 type Terr struct {
@@ -322,9 +323,15 @@ func (w *World) need(m *Module, key string, from token.Position) error {
 		return &Terr{from, fmt.Sprintf("function %s not found in package %s", key, m.Pkg.Dir)}
 	}
 	m.state[key] = 1
-	text, err := w.translateFunc(m, key, fd)
+	text, canPanic, err := w.translateFunc(m, key, fd)
 	if err != nil {
 		return err
+	}
+	if canPanic {
+		if w.Panicky == nil {
+			w.Panicky = map[string]bool{}
+		}
+		w.Panicky[m.Name+"."+coqFuncName(key)] = true
 	}
 	m.state[key] = 2
 	m.defs[key] = text
